@@ -45,7 +45,7 @@ ASSUMPTIONS = [
     "public key coordinates in [0,p) for the conformance theorem; private value in [1,n-1] for the round trip",
     "the random reader delivers the bytes of the stream in order (io.ReadFull semantics)",
 ]
-RULE = ("seeded generator (VERIF_SEED): keys {1,2,n-2, random, leading-zero d/X/Y}; plaintext lengths 0..4097: 0..40, and EVERY KDF block boundary k = 1..128 at one of 32k-1, 32k, 32k+1 in one of the four forms (mode 0, 1, ASN.1, other mode), cell chosen by a seed-dependent rotation (thorough: all 3 x 128 x 4 cells); rejection-catalogue bases at |M| = 65, 96, 97, >= 1000 and two/three of {1,19,33,64} rotating with the seed; modes 0,1 and others; raw and ASN.1; "
+RULE = ("seeded generator (VERIF_SEED): keys {1,2,n-2, random, leading-zero d/X/Y}; plaintext lengths 0..4097: 0..40, and EVERY KDF block boundary k = 1..128 at one of 32k-1, 32k, 32k+1 in one of the four forms (mode 0, 1, ASN.1, other mode), cell chosen by a seed-dependent rotation (thorough: all 3 x 128 x 4 cells); every length 41..200 once (all residues of |M| mod 64; conformance case, form rotating); sparse scalars 2^e, 2^e +- 1, 3*2^e (e in {0,1,63,64,127,128,129,200,254,255}) as nonce k (conformance) and as private key d (round trip); rejection-catalogue bases at |M| = 65, 96, 97, >= 1000 and two/three of {1,19,33,64} rotating with the seed; modes 0,1 and others; raw and ASN.1; "
         "nonce streams {random, k=1, all-ff, k=n-1, short, hard-coded nonces giving leading-zero x1,y1,x2,y2}; every honest ciphertext decrypted back (and with the other mode); "
         "rejection catalogue on base ciphertexts: single-byte changes (incl. the 04 prefix), truncations, extensions, C1 replaced by small-order points of other curves / off-curve / "
         "(0,0) / coordinates >= p / (x+p,y) with and without recomputed C3,C2, wrong key, ASN.1 structural variants; corpus: regression cases D33 (prefix byte) and D34 (x >= p); consumer legs: T = gmtls eccKeyAgreementGM.processClientKeyExchange (48/47/49-byte secrets, altered C3/C2/C1, other key, truncations, length-prefix errors), Q = PKCS#7 enveloped data with SM2 key transport (altered C3/C2/C1, prefix, other key). "
